@@ -64,6 +64,17 @@ func b2i(b bool) int {
 	return 0
 }
 
+func u32list(xs []uint32) string {
+	if len(xs) == 0 {
+		return "-"
+	}
+	var p []string
+	for _, x := range xs {
+		p = append(p, strconv.FormatUint(uint64(x), 10))
+	}
+	return strings.Join(p, ".")
+}
+
 func hexN(b []byte) string { return new(big.Int).SetBytes(b).Text(16) }
 
 // SrcTok renders an address string as "4.<hex>" / "6.<hex>".
@@ -120,12 +131,19 @@ func Digest(v *server.VerifBMP) string {
 		sb.WriteString(strconv.FormatUint(x, 10))
 	}
 	sb.WriteString("|n=")
+	rids := v.NeighborRouterIDs()
 	for i, n := range v.Neighbors() {
 		if i > 0 {
 			sb.WriteByte(',')
 		}
-		fmt.Fprintf(&sb, "%x:%s:%s:%d:%d:o%d%dr%d%da%de%d", n.VRF, hexN(n.Addr[:]), SrcTok(n.PeerIP), n.PeerAS, n.LocalAS,
-			b2i(n.OptAddPath4), b2i(n.OptAddPath6), b2i(n.RIBAddPath4), b2i(n.RIBAddPath6), b2i(n.Supports4OctetASN), b2i(n.Established))
+		rid := uint32(0)
+		if i < len(rids) {
+			rid = rids[i]
+		}
+		// k: the session's local AS is a contributing ASN of the VRF, c: the router id a contributing cluster id
+		fmt.Fprintf(&sb, "%x:%s:%s:%d:%d:o%d%dr%d%da%de%d:rid%d:k%dc%d", n.VRF, hexN(n.Addr[:]), SrcTok(n.PeerIP), n.PeerAS, n.LocalAS,
+			b2i(n.OptAddPath4), b2i(n.OptAddPath6), b2i(n.RIBAddPath4), b2i(n.RIBAddPath6), b2i(n.Supports4OctetASN), b2i(n.Established),
+			rid, b2i(v.ContributingASN(n.VRF, n.LocalAS)), b2i(v.ContributingClusterID(n.VRF, rid)))
 	}
 	sb.WriteString("|i=")
 	var ig []string
@@ -234,12 +252,21 @@ func ApplyUpdate(ap4, ap6, asn32 bool, bgp []byte) (evs string, panicked bool) {
 	}
 	pk, _ := guard(func() { v.Process(RouteMon(p, bgp)) })
 	var out []string
-	for _, e := range v.TakeAdjEvents() {
+	attrs := v.TakeAdjEventAttrs()
+	for i, e := range v.TakeAdjEvents() {
 		f := "4"
 		if e.IPv6 {
 			f = "6"
 		}
-		out = append(out, fmt.Sprintf("%c%s~%s~%d", e.Kind, f, PfxTok(e.Prefix), e.PathID))
+		t := fmt.Sprintf("%c%s~%s~%d", e.Kind, f, PfxTok(e.Prefix), e.PathID)
+		if e.Kind == 'A' {
+			var a server.VerifBMPPathAttrs
+			if i < len(attrs) {
+				a = attrs[i]
+			}
+			t += fmt.Sprintf("~e%d;%s;%d;%s", b2i(a.ASPathEmpty), u32list(a.ASNs), a.OriginatorID, u32list(a.ClusterList))
+		}
+		out = append(out, t)
 	}
 	evs = "-"
 	if len(out) > 0 {
